@@ -157,13 +157,17 @@ theorem row_injective_values (fs : List (FTy × SortOptions)) (r1 r2 : List FVal
   rw [h, e2] at e1
   exact (Option.some.inj e1).symm
 
-/-! ### nested types: the composition steps
+/-! ### nested types
 
-`Struct`, `List`, `FixedSizeList`, `Dictionary`, `RunEndEncoded` are modelled (`encode`) and
-compared byte-for-byte with the implementation on every run.  Proved here are the composition
-steps — each says: *if the children's encodings are strictly order preserving, so is the
-parent's* — and their instances for children of flat type.  The closing induction over
-arbitrarily deep types is not mechanised (partial). -/
+`Struct`, `List` kinds, `FixedSizeList`, `Dictionary`, `RunEndEncoded`, `Null` of any nesting
+depth.  `cmpN` (Model.lean) is the logical order: nulls first/last by `nulls_first`; struct
+children lexicographically under the struct's options; list elements lexicographically, a
+proper prefix first, elements compared under the child options
+`{descending: false, nulls_first: nulls_first != descending}` and the whole reversed when
+descending (which is how element nulls end up where `nulls_first` says); fixed-size lists
+element-wise; dictionary and run-end values as their plain values.  `Map` and `Union` are
+excluded (`unionFree`): the Union encoding does *not* preserve order under `descending`
+(known finding), so no such theorem exists for it. -/
 
 /-- **List step** (`list::encode_one`): with non-empty element rows, the list encoding
 (every element row variable-length encoded, then the terminator) compares like the lists of
@@ -178,57 +182,48 @@ theorem list_order_step (o : SortOptions) (xs ys : List (List UInt8))
 example : compareBytes (listEnc ⟨true, false⟩ [[1], [2]]) (listEnc ⟨true, false⟩ [[1]]) = .lt :=
   (list_order_step _ _ _ (by decide) (by decide)).1.trans (by decide)
 
-/-- **Struct / FixedSizeList step**: parts that are pairwise strictly comparable (no part a
-proper prefix of its counterpart) concatenate to something compared lexicographically by the
-parts (`encode_column` `Encoder::Struct`, `encode_fixed_size_list` after the validity byte). -/
-theorem concat_order_step (xs ys : List (List UInt8)) (rs : List Ordering) (h1 : xs.length = ys.length)
-    (h2 : rs.length = xs.length)
-    (h : ∀ i (h1 : i < xs.length) (h2 : i < ys.length) (h3 : i < rs.length), cmpStrict xs[i] ys[i] = some rs[i]) :
-    compareBytes xs.flatten ys.flatten = rs.foldr Ordering.then .eq :=
-  compareBytes_of_cmpStrict (concat_cmp xs ys rs h1 h2 h)
+/-- **Nested field level, every depth**: for every union-free type, options and conforming
+values, byte comparison of the encodings equals the logical comparison `cmpN`, and no
+encoding is a proper prefix of another. -/
+theorem nested_order (t : Ty) (o : SortOptions) (a b : Val) (hu : unionFree t = true)
+    (ha : conforms t a = true) (hb : conforms t b = true) :
+    compareBytes (encode o t a) (encode o t b) = cmpN t o a b ∧
+    (encode o t a <+: encode o t b → encode o t a = encode o t b) :=
+  ⟨compareBytes_of_cmpStrict (encode_cmpN t o a b hu ha hb), eq_of_prefix_of_cmpStrict (encode_cmpN t o a b hu ha hb)⟩
 
-/-- **List of a flat type, every SortOptions** (`List`, `LargeList`, `ListView`,
-`LargeListView` of primitives / strings …): byte order of the model's list encoding =
-lexicographic order of the element lists, elements compared under the child options
-`{descending: false, nulls_first: nulls_first != descending}`, the whole reversed when
-descending (so that element nulls end up where `nulls_first` says). -/
-theorem list_of_flat_order_partial (o : SortOptions) (t : FTy) (xs ys : List FVal)
-    (hx : ∀ x ∈ xs, t.admits x = true) (hy : ∀ y ∈ ys, t.admits y = true) :
-    compareBytes (listEnc o (xs.map (encodeField (childOpts o) t))) (listEnc o (ys.map (encodeField (childOpts o) t)))
-      = swapIf o.descending (lexCompare (compareField (childOpts o) t) xs ys) := by
-  rw [(list_order_step o _ _ ?_ ?_).1, lexCompare_map]
-  · congr 1
-    exact lexCompare_congr _ _ xs ys (fun a ha b hb => field_order (childOpts o) t a b (hx a ha) (hy b hb))
-  · intro x hx'
-    obtain ⟨a, ha, rfl⟩ := List.mem_map.mp hx'
-    exact encodeField_ne_nil _ t a (hx a ha)
-  · intro y hy'
-    obtain ⟨a, ha, rfl⟩ := List.mem_map.mp hy'
-    exact encodeField_ne_nil _ t a (hy a ha)
+example : unionFree (.list (.struct [.leaf (.int true 4), .ree (.leaf .bin)])) = true ∧
+    conforms (.list (.struct [.leaf (.int true 4), .ree (.leaf .bin)]))
+      (.list [.tuple [.int (-7), .bytes [0, 255]], .null, .tuple [.null, .null]]) = true := by decide
 
-/-- the model's `List` case is `listEnc` of the element encodings (so the theorem above is
-about `encode`) -/
+/-- **Rows of nested fields: byte order = lexicographic tuple order**, with per-field
+options, for every schema of union-free fields; rows are byte-equal exactly when they compare
+equal, and never proper prefixes of one another. -/
+theorem nested_row_order (fs : List (Ty × SortOptions)) (r1 r2 : List Val)
+    (hu : ∀ f ∈ fs, unionFree f.1 = true) (h1 : conformsRow fs r1 = true) (h2 : conformsRow fs r2 = true) :
+    compareBytes (encodeRowN fs r1) (encodeRowN fs r2) = cmpRowN fs r1 r2 ∧
+    (encodeRowN fs r1 = encodeRowN fs r2 ↔ cmpRowN fs r1 r2 = .eq) ∧
+    (encodeRowN fs r1 <+: encodeRowN fs r2 → encodeRowN fs r1 = encodeRowN fs r2) := by
+  have h := encodeRowN_cmp fs r1 r2 hu h1 h2
+  refine ⟨compareBytes_of_cmpStrict h, ⟨fun he => ?_, fun hc => ?_⟩, eq_of_prefix_of_cmpStrict h⟩
+  · rw [he, cmpStrict_eq_iff.mpr rfl] at h
+    exact (Option.some.inj h).symm
+  · rw [hc] at h
+    exact cmpStrict_eq_iff.mp h
+
+/-- the model's `List` case is `listEnc` of the element encodings -/
 theorem encode_list (o : SortOptions) (t : Ty) (vs : List Val) :
     encode o (.list t) (.list vs) = listEnc o (vs.map (encode (childOpts o) t)) :=
   encode_list_eq o t vs
 
-/-- **Run-end encoded / dictionary of a flat type**: a run-end value is the variable-length
-encoding of the value's row under the child options; byte order = value order, reversed when
-descending.  (A dictionary value is encoded as the value itself: `field_order` applies.) -/
-theorem ree_of_flat_order_partial (o : SortOptions) (t : FTy) (a b : FVal) (ha : t.admits a = true) (hb : t.admits b = true) :
-    compareBytes (encodeVar o (some (encodeField (childOpts o) t a))) (encodeVar o (some (encodeField (childOpts o) t b)))
-      = swapIf o.descending (compareField (childOpts o) t a b) := by
-  rw [var_order, compareVal_some, field_order _ t a b ha hb]
+/-- **Rows round-trip through their binary-array form**: slicing the concatenated buffer
+by the offsets that `try_into_binary` writes (`from_binary`, then `row(i)`) returns every row
+unchanged — so all the statements above transfer to rows that went through a `BinaryArray`. -/
+theorem binary_roundtrip (rows : List (List UInt8)) :
+    fromBinary (toBinary rows).1 (toBinary rows).2 = rows := by
+  have := fromBinary_offsets rows []
+  simpa [toBinary] using this
 
-/-- **Struct of flat fields**: validity byte then the children's row — ordered like the
-tuple of children (all under the struct's options); a struct encoding followed by anything
-still compares correctly (prefix-free). -/
-theorem struct_of_flat_order_partial (o : SortOptions) (ts : List FTy) (r1 r2 : List FVal) (b : UInt8)
-    (h1 : rowAdmits (ts.map (·, o)) r1 = true) (h2 : rowAdmits (ts.map (·, o)) r2 = true) :
-    compareBytes (b :: encodeRow (ts.map (·, o)) r1) (b :: encodeRow (ts.map (·, o)) r2)
-      = compareRows (ts.map (·, o)) r1 r2 := by
-  apply compareBytes_of_cmpStrict
-  rw [cmpStrict_cons_same]
-  exact encodeRow_cmp _ r1 r2 h1 h2
+example : fromBinary (toBinary [[1, 2], [], [3]]).1 (toBinary [[1, 2], [], [3]]).2 = [[1, 2], [], [3]] :=
+  binary_roundtrip _
 
 end ArrowModel.C11
